@@ -273,7 +273,14 @@ def run_case(case, ctx):
                 if not good:
                     ok = False
                     bad = bad or {"point": p, "factor": f, "col": c, "batch": a, "single": b}
+        # structure of the recorded finding: the detector decides its branches on the first point's loads with an ABSOLUTE
+        # tolerance of 1e-12 (fkm_nonlinear.py: `< previous_load_extent-1e-12` ...); when the first point's loads are so small that
+        # two different loads or extents lie closer than that, it treats them as equal for every point
+        v0 = np.asarray(seq, dtype=float) * factors[0]
+        q0 = np.unique(np.concatenate([np.abs(v0), np.abs(v0[:, None] - v0[None, :]).reshape(-1)]))
+        gaps = np.diff(q0)
+        atol_tags = ["c05_absolute_tolerance_1e-12_in_branch_decisions"] if (len(gaps) and float(gaps[gaps > 0].min(initial=1.0)) < 4e-12) else []
         if edge_amb and not ok:
             ctx.skip("multi:edge_ambiguous")
         else:
-            ctx.check("multi_point==single_point", ok, observed=bad, detail={"factors": factors})
+            ctx.check("multi_point==single_point", ok, observed=bad, tags=atol_tags, detail={"factors": factors})
